@@ -24,6 +24,13 @@ AnIntAlias = int
 ATupleAlias = tuple
 
 
+class _Spy(object):
+    """a module-level object of a loaded module that nothing ever sends: every attribute read on it is recorded"""
+    def __getattribute__(self, name):
+        HITS.module_object_reads.append(name)
+        return object.__getattribute__(self, name)
+
+
 class Hits:
     """what the direct oracle reads (filled by the canaries themselves, independent of the recorder)"""
     def __init__(self):
@@ -33,10 +40,12 @@ class Hits:
         self.keys_calls = []      # `.keys()` ran (dict(kwargs) in _handle_call)
         self.special = []         # __iter__/__getitem__/__lt__/__gt__/__rsub__/__index__ of a canary ran
         self.module_hooks = []    # a module-level __getattr__ (PEP 562) of a canary module ran: (module, name)
+        self.module_object_reads = []   # attribute reads on SPY, a module-level object that is never sent
         self.state_writes = []
 
 
 HITS = Hits()
+SPY = _Spy()
 
 
 class CanaryMeta(type):
@@ -359,6 +368,52 @@ class PeerStream(simnet.MemStream):
         raise rt.Unobservable("serve() would block forever")
 
 
+_MEASURED = None
+
+
+def measured():
+    """what the code under test does in two places where the pinned behaviour is a known, reported weakness: the oracle's
+    clauses for them are armed only once the code behaves (so the unchanged tree does not alarm, a regression does)"""
+    global _MEASURED
+    if _MEASURED is None:
+        import types
+        from rpyc.core import protocol, netref
+        log = []
+
+        class Own(object):
+            def _rpyc_getattr(self, name):
+                raise AttributeError(name)
+
+            def __getitem__(self, k):
+                log.append("getitem")
+                return "secret"
+        c = protocol.Connection.__new__(protocol.Connection)
+        c._config = dict(protocol.DEFAULT_CONFIG)
+        c._closed = True
+        try:
+            protocol.Connection._handle_cmp(c, Own(), "k", "__getitem__")
+        except Exception:  # noqa
+            pass
+        cmp_ok = not log
+        reads = []
+
+        class Spy2(object):
+            def __getattribute__(self, n):
+                reads.append(n)
+                return object.__getattribute__(self, n)
+        m = types.ModuleType("c07measuremod")
+        m.obj = Spy2()
+        sys.modules["c07measuremod"] = m
+        try:
+            netref.class_factory(("c07measuremod.obj", 11, 22), ())
+        except Exception:  # noqa
+            pass
+        finally:
+            sys.modules.pop("c07measuremod", None)
+        _MEASURED = dict(cmp_respects_object_hook=cmp_ok, class_factory_reads_no_module_object=not reads)
+    return _MEASURED
+
+
 def _snapshot_defaults(cfg):
     return dict((k, (set(v) if isinstance(v, (set, frozenset)) else v)) for k, v in cfg.items())
 
@@ -426,7 +481,7 @@ class Session:
         self._saved_time = rpyc.lib.time
         rpyc.lib.time = self.net.clock
         rt.HITS = HITS
-        for lst in (HITS.denied_attr, HITS.denied_call, HITS.allowed_call, HITS.keys_calls, HITS.special, HITS.state_writes,
+        for lst in (HITS.module_object_reads, HITS.denied_attr, HITS.denied_call, HITS.allowed_call, HITS.keys_calls, HITS.special, HITS.state_writes,
                     HITS.module_hooks,
                     rt.PICKLE_LOG, rt.IMPORT_LOG, IMPORTED):
             del lst[:]
@@ -584,7 +639,7 @@ def model_core(line):
 
 # ------------------------------------------------------------------------------------------------ generator
 import concurrent.futures  # noqa: F401,E402  (loaded in the serving process; its PEP 562 hook imports submodules lazily)
-INSPECT_NAMES = ["c07hookmod.Whatever", "c07hookmod.Existing", "c07hookmod.a.b", "c07hookmod.__getattr__", "c07hookmod.Whatever",
+INSPECT_NAMES = ["handlers_world.SPY", "handlers_world.SPY", "handlers_world.HITS", "c07hookmod.Whatever", "c07hookmod.Existing", "c07hookmod.a.b", "c07hookmod.__getattr__", "c07hookmod.Whatever",
                  "concurrent.futures.ProcessPoolExecutor", "concurrent.futures.ThreadPoolExecutor", "urllib.parse.Quoter",
                  "c07canmod_a.Boom", "c07canmod_b.X.Y", "c07canmod_a", "c07canmod_b.Boom", "sndhdr.X", "colorsys.X.Y", "chunk.Chunk",
                  "tabnanny.NannyNag", "os.system", "os.path.join", "json.decoder.JSONDecoder", "handlers_world.Thing", "canary.Foo",
@@ -985,6 +1040,24 @@ class Gen:
             out.append(("v", (1, self.seq + 100, (h, args))))
         return out
 
+    def cmp_hook_burst(self):
+        """HANDLE_CMP on a held object whose OWN class decides attribute access (`_rpyc_getattr`), with operator names that are
+        on the safe list but that the object's hook refuses: its policy, not the connection's, is the one that counts"""
+        r = self.r
+        mine = [i for i in self.held if type(i) is tuple and len(i) == 3 and type(i[0]) is str
+                and (i[0].endswith(".Hooked") or i[0].endswith(".Restricted"))]
+        if not mine:
+            self.seq += 1
+            root = (3, self.held[0]) if self.held else (3, ("?", 0, 0))
+            return [("v", (1, self.seq + 100, (8, (2, (root, (1, "get"), (1, (4,)))))))]     # fetch the Hooked canary
+        out = []
+        for _ in range(r.range(1, 3)):
+            self.seq += 1
+            op = r.choice(["__getitem__", "__iter__", "__lt__", "__hash__", "__repr__", "__str__", "__len__", "__eq__", "__call__",
+                           "__contains__", "__getattribute__", "__bool__", "__enter__"])
+            out.append(("v", (1, self.seq + 100, (11, (2, ((3, r.choice(mine)), (1, r.choice([0, "k", "x"])), (1, op)))))))
+        return out
+
     def proxy_attr_burst(self):
         """GETATTR / CALLATTR whose TARGET is one of the peer's own objects (a REMOTE_REF: a proxy on the serving side) and
         whose name is one that proxies answer from local state; the class names make the proxy's `__class__` resolve to
@@ -1153,6 +1226,8 @@ class Gen:
 
     def hostile_burst(self):
         r = self.r
+        if self.held and r.chance(1, 14):
+            return self.cmp_hook_burst()
         if r.chance(1, 12):
             return self.proxy_attr_burst()
         if r.chance(1, 12):
@@ -1223,6 +1298,7 @@ def run_session(rng, n_bursts, config=None, cfg_text="default"):
         s.gen = g
         s.hits = dict(denied_attr=list(HITS.denied_attr), denied_call=list(HITS.denied_call), keys=list(HITS.keys_calls),
                       special=list(HITS.special), module_hooks=list(HITS.module_hooks),
+                      module_object_reads=list(HITS.module_object_reads),
                       state_writes=list(HITS.state_writes), pickle=list(rt.PICKLE_LOG), imports=list(rt.IMPORT_LOG),
                       imported=list(IMPORTED), new_modules=sorted(m for m in set(sys.modules) - s.modules_before
                                                                  if not m.startswith("encodings")),
